@@ -223,9 +223,18 @@ func runC11(tier, replay string) int {
 	if v, err := strconv.Atoi(os.Getenv("VERIF_C11_PROGS")); err == nil && v > 0 {
 		nprog = v // development aid: a smaller sample
 	}
+	first := 0
+	if v, err := strconv.Atoi(os.Getenv("VERIF_C11_FIRST")); err == nil && v > 0 {
+		first = v // development aid: the sample starts at this program of the sequence (0-based)
+	}
+	stride := 1
+	if v, err := strconv.Atoi(os.Getenv("VERIF_C11_STRIDE")); err == nil && v > 0 {
+		stride = v // development aid: every stride-th program of the sequence
+	}
 	progs := make([]*tokgen.Prog, nprog)
 	core.ParMap(nprog, core.Cores(), func(i int) {
-		progs[i] = tokgen.Generate(i+1, c.Seed*100003+int64(i)*7919+1, c11Options(i))
+		k := first + i*stride
+		progs[i] = tokgen.Generate(k+1, c.Seed*100003+int64(k)*7919+1, c11Options(k))
 	})
 	srcs := make([]string, nprog)
 	var kept []*tokgen.Prog
@@ -333,7 +342,15 @@ func runC11(tier, replay string) int {
 	// ---- per shard: TLC enumerates the mutants of its programs, the harness replays them -----------------------
 	// (each TLC process gets its own share of the programs; the first one also checks the incremental text/position
 	// forms of the specification against the plain definitions on every mutant)
-	nshards := min(len(kept), c.Pick(6, 2*core.Cores()))
+	// A TLC process keeps per-program tables and its large states in memory: with 57 programs in one process a 6 GB
+	// heap was exhausted (GC thrash, then "Evaluating invariant FastOK failed" from an allocation failure).  The
+	// number of programs per process is therefore bounded (8: measured fine with a 2 GB heap), independent of the
+	// number of cores; Cores() processes run at a time.
+	const perShard = 8
+	nshards := min(len(kept), max(c.Pick(6, 2*core.Cores()), (len(kept)+perShard-1)/perShard))
+	if v, err := strconv.Atoi(os.Getenv("VERIF_C11_SHARDS")); err == nil && v > 0 {
+		nshards = min(len(kept), v) // development aid
+	}
 	type tally struct{ n, bad int }
 	perRule := map[string]*tally{}
 	perWhere := map[string]int{}
